@@ -212,6 +212,15 @@ class Obligation:
         self.smt2 = None
         self.axioms_used = []
 
+    def trivial(self):
+        """the goal is literally one of the hypotheses (hash-consed terms): discharged without a solver"""
+        if self.expect_sat:
+            return False
+        g = self.goal.get_id()
+        if z3.is_true(self.goal):
+            return True
+        return any(h.get_id() == g for h in self.hyps)
+
     def compile(self):
         s = z3.Solver()
         forms = list(self.hyps) + [self.goal]
